@@ -50,6 +50,54 @@ func renderNego(r *bfe_tls.VerifC41Nego) string {
 		d(r.ALPN), d(r.ClientProto), npn, r.ClientAuth, ex, sv)
 }
 
+// sessionInputs turns the ticket / sid fields of a case into the bytes a hello carries (a real ticket sealed under the
+// config's key, a session id whose state is put into the cache, garbage, …).
+func sessionInputs(k *x.Kase, cfg *bfe_tls.Config, cache x.MapCache) (ticket, sidOut []byte, ok bool) {
+	switch k.Ticket {
+	case "-":
+	case "bad":
+		b := make([]byte, 96)
+		for i := range b {
+			b[i] = byte(7 * i)
+		}
+		ticket = b
+	default:
+		v, su, certs, ok := x.ParseSess(k.Ticket)
+		if !ok {
+			return nil, nil, false
+		}
+		t, err := bfe_tls.VerifC41Ticket(cfg, v, su, x.Master48, certs)
+		if err != nil {
+			return nil, nil, false
+		}
+		ticket = t
+	}
+	sid := make([]byte, 32)
+	for i := range sid {
+		sid[i] = byte(0x40 + i)
+	}
+	switch k.Sid {
+	case "-":
+	case "miss":
+		sidOut = sid
+	case "badcache":
+		sidOut = sid
+		if cache != nil {
+			cache.Put(fmt.Sprintf("%x", sid), []byte{3, 1, 0})
+		}
+	default:
+		v, su, certs, ok := x.ParseSess(k.Sid)
+		if !ok {
+			return nil, nil, false
+		}
+		sidOut = sid
+		if cache != nil {
+			cache.Put(fmt.Sprintf("%x", sid), bfe_tls.VerifC41SessionBytes(v, su, x.Master48, certs))
+		}
+	}
+	return ticket, sidOut, true
+}
+
 func execRch(f []string) string {
 	var k x.Kase
 	if len(f) != 23 || !x.ParseCfg(f[1:14], &k) || !x.ParseHello(f[14:23], &k) {
@@ -64,47 +112,9 @@ func execRch(f []string) string {
 	}
 	h := &bfe_tls.VerifC41Hello{Vers: k.Hv, Suites: k.Suites, Compression: k.Compression, Curves: k.Curves,
 		Points: k.Points, ALPN: k.Alpn, NPN: k.Npn, TicketSupported: k.TkSupported}
-	switch k.Ticket {
-	case "-":
-	case "bad":
-		b := make([]byte, 96)
-		for i := range b {
-			b[i] = byte(7 * i)
-		}
-		h.SessionTicket = b
-	default:
-		v, su, certs, ok := x.ParseSess(k.Ticket)
-		if !ok {
-			return "bad-op"
-		}
-		t, err := bfe_tls.VerifC41Ticket(cfg, v, su, x.Master48, certs)
-		if err != nil {
-			return "bad-op"
-		}
-		h.SessionTicket = t
-	}
-	sid := make([]byte, 32)
-	for i := range sid {
-		sid[i] = byte(0x40 + i)
-	}
-	switch k.Sid {
-	case "-":
-	case "miss":
-		h.SessionId = sid
-	case "badcache":
-		h.SessionId = sid
-		if cache != nil {
-			cache.Put(fmt.Sprintf("%x", sid), []byte{3, 1, 0})
-		}
-	default:
-		v, su, certs, ok := x.ParseSess(k.Sid)
-		if !ok {
-			return "bad-op"
-		}
-		h.SessionId = sid
-		if cache != nil {
-			cache.Put(fmt.Sprintf("%x", sid), bfe_tls.VerifC41SessionBytes(v, su, x.Master48, certs))
-		}
+	var ok bool
+	if h.SessionTicket, h.SessionId, ok = sessionInputs(&k, cfg, cache); !ok {
+		return "bad-op"
 	}
 	return renderNego(bfe_tls.VerifC41ReadClientHello(cfg, h))
 }
@@ -125,6 +135,10 @@ func gen(r *vh.Rand) string {
 		return genEe(r)
 	case 14:
 		return genEh(r)
+	case 15, 16, 17, 18, 19, 20:
+		return genRw(r)
+	case 21, 22:
+		return genLh(r)
 	}
 	var k x.Kase
 	x.GenCfg(r, &k)
@@ -137,6 +151,10 @@ func exec(op string) string {
 	switch f[0] {
 	case "rch":
 		return execRch(f)
+	case "lh":
+		return execLh(f)
+	case "rw":
+		return execRw(f)
 	case "ee":
 		return execEe(f)
 	case "eh":
